@@ -25,6 +25,10 @@ var evals = map[string]evalFunc{}
 // per-op deadline; ops that may legitimately take long set their own
 var opDeadline = 20 * time.Second
 
+// ops that bring their own, finer, hang detection (a child process with a timeout) get a wide outer limit so
+// that a loaded machine is not mistaken for a hang
+var opDeadlines = map[string]time.Duration{"conc": 400 * time.Second}
+
 func runOp(line string) (res string) {
 	toks := strings.Fields(line)
 	if len(toks) == 0 {
@@ -46,10 +50,14 @@ func runOp(line string) (res string) {
 		}()
 		done <- f(toks[1:])
 	}()
+	dl := opDeadline
+	if d, ok := opDeadlines[toks[0]]; ok {
+		dl = d
+	}
 	select {
 	case r := <-done:
 		return r
-	case <-time.After(opDeadline):
+	case <-time.After(dl):
 		return "hang"
 	}
 }
